@@ -31,6 +31,7 @@ func (c *Ctx) ord11() {
 	ret := c.acc("ORD-11", rs, "message-returned⇒its-packet-still-pending")
 	big := c.acc("ORD-11", rs, "parked-BigMessage-cleared-unless-served")
 	entry := c.acc("ORD-11", rs, "entry⇒parked-BigMessage-flushed(discard(Size))-and-cleared-before-the-stream-is-read")
+	unpark := c.acc("ORD-11", rs, "parked-BigMessage-found⇒cleared-by-readSlices-itself-on-every-exit")
 	disc := c.Fn("ORD-11", "(*Client).discard")
 	for _, p := range c.Paths("ORD-11", rs) {
 		if p.Start == rs.Blocks[0] {
@@ -77,6 +78,35 @@ func (c *Ctx) ord11() {
 					entry.fail(p, first, "the stream is used on a new ReadSlices call without c.bigMessage having been examined: the payload of a BigMessage the application did not read is still in the stream and is parsed as packets")
 				default:
 					entry.fail(p, first, "a parked BigMessage is not both flushed (discard of its Size) and cleared before the stream is used (flushed: %v): its payload is parsed as packets, or discarded again on the next call", flushed)
+				}
+			}
+		}
+		if p.Start == rs.Blocks[0] && p.End == pathx.KReturn {
+			// a call that finds a BigMessage parked unparks it whatever the flush
+			// does: toOffline does not clear it once the client is closed, and a
+			// message that stays parked is flushed again by every later call
+			found, cleared := false, false
+			firstUse := p.Index(0, func(e *pathx.Event) bool { return isCallTo(e, pp) })
+			upto := len(p.Events)
+			if firstUse >= 0 {
+				upto = firstUse
+			}
+			for i := 0; i < upto; i++ {
+				e := &p.Events[i]
+				if e.Kind == pathx.KAssume {
+					if cm, ok := cmpOf(e.Val, e.Truth); ok && roleKey(cm.X) == "Client.bigMessage" && pathx.IsNilConst(cm.Y) && cm.Op == token.NEQ {
+						found = true
+					}
+				}
+				if found && e.Kind == pathx.KStore && e.Fn == rs && pathx.RoleOfAddr(e.Addr).Key() == "Client.bigMessage" && pathx.IsNilConst(e.Val) {
+					cleared = true
+				}
+			}
+			if found {
+				if cleared {
+					unpark.pass()
+				} else {
+					unpark.fail(p, len(p.Events)-1, "ReadSlices found a BigMessage parked and returns without having cleared c.bigMessage itself: when the flush fails on a closed client toOffline leaves the field alone, and every later call flushes again instead of reporting ErrClosed")
 				}
 			}
 		}
@@ -198,6 +228,7 @@ func (c *Ctx) ord11() {
 		}
 		w.done(1, "the read lies behind c.bigMessage == e and c.bigMessage = nil")
 	}
+	unpark.done(1, "c.bigMessage = nil on every path that found it set, before the first peek or the return")
 	entry.done(1, "bigMessage is nil, or its Size was discarded and the field cleared, before the first stream operation")
 	skip.done(1, "no path discards len(c.peek) twice without a new peek")
 	stale.done(1, "every peekPacket call starts from c.peek == nil")
